@@ -787,6 +787,33 @@ func (i *interpreter) assignDecodedFmt(dst *value, src value, ptrT types.Type, f
 					}
 					if format != "" && omitEmptyTag(tag, format) && concretelyEmpty(ns[k]) {
 						ns[k] = cur[k]
+						continue
+					}
+					// encoding/json decodes an array into the destination slice's existing backing
+					// array: elements are reused without being zeroed, so fields the document omits
+					// (omitempty) keep what the old element had
+					if format == "json" {
+						if oldSl, ok := cur[k].([]value); ok && cap(oldSl) > 0 {
+							if newSl, ok := ns[k].([]value); ok {
+								if et, ok := st.Field(k).Type().Underlying().(*types.Slice); ok {
+									if est, ok := et.Elem().Underlying().(*types.Struct); ok {
+										oldAll := oldSl[:cap(oldSl)]
+										for e := 0; e < len(newSl) && e < len(oldAll); e++ {
+											ne, ok1 := newSl[e].(structure)
+											oe, ok2 := oldAll[e].(structure)
+											if !ok1 || !ok2 {
+												continue
+											}
+											for f := 0; f < est.NumFields(); f++ {
+												if omitEmptyTag(est.Tag(f), format) && concretelyEmpty(ne[f]) {
+													ne[f] = cloneVal(oe[f])
+												}
+											}
+										}
+									}
+								}
+							}
+						}
 					}
 				}
 			}
